@@ -62,6 +62,12 @@ def sweep(ctx, rng, limit):
                 if k2 not in allowed:
                     muts.append(("kind-" + k2, pre + k2 + ":0" + path))
             muts.append(("extend-path", sv + ".zzz_undeclared"))
+            if not pre:
+                # qualified by a schema the document does not import (a file that does not exist / one that does)
+                muts.append(("qualify-ghost", "schema:{nonexistent/not_a_schema}." + sv))
+                imported = [i.get("file_name") for i in base.get("imports", []) if isinstance(i, dict)]
+                if "test/small_example_schema" not in imported:
+                    muts.append(("qualify-unimported", "schema:{test/small_example_schema}." + sv))
             for mname, nv in muts:
                 cases.append((name, p, sv, mname, nv, setp(base, p, nv)))
     if len(cases) > limit:
